@@ -42,8 +42,9 @@ var customNodeType component_definition.PropertyType = component_definition.Prop
 func newScan() *CustomScan {
 	return &CustomScan{processors.DefaultTagScanDefinitionRegistryPostProcessor{NodeType: customNodeType, Tag: "mytag",
 		ExtractHandler: func(meta *component_definition.Meta, field *component_definition.Field) (tag, tagVal string, ok bool) {
+			// the property is filed under the tag name the field really carries (the legacy alias), not under Tag
 			tagVal, ok = field.StructField.Tag.Lookup("alt")
-			return "mytag", tagVal, ok
+			return "alt", tagVal, ok
 		}}}
 }
 
@@ -61,10 +62,13 @@ func (m *CustomPP) PostProcessAfterInstantiation(component any, componentName st
 func (m *CustomPP) PostProcessProperties(props []*component_definition.Property, component any, name string) ([]*component_definition.Property, error) {
 	handled := []*component_definition.Property{}
 	for _, d := range props {
-		if d.Tag != "mytag" {
+		if d.Tag != "mytag" && d.Tag != "alt" {
 			continue
 		}
 		var as []string
+		if d.Tag == "alt" {
+			as = append(as, "via=alt") // delivered under the alias tag name
+		}
 		d.Args().ForEach(func(a component_definition.ArgType, items []string) {
 			as = append(as, string(a)+"="+strings.Join(items, " "))
 		})
@@ -82,9 +86,10 @@ func (m *CustomPP) PostProcessProperties(props []*component_definition.Property,
 }
 
 // a second user tag with its own scanner and a processor that runs after the first one
-type CustomScan2 struct {
-	processors.DefaultTagScanDefinitionRegistryPostProcessor
-}
+// (the second scanner is another instance of the SAME Go type, configured for another tag and named differently)
+type CustomScan2 = CustomScan
+
+func (c *CustomScan) Naming() string { return "custom-scan-" + c.Tag }
 
 // one scanner instance may serve many containers of a process (a package-level processor value): every container
 // gets its own definitions from it
@@ -192,7 +197,7 @@ func genLeaf(t *rapid.T, i int) leaf {
 			l.Tag += ` alt:"other"`
 		case 1: // only the extract handler accepts it
 			l.Tag = `alt:` + strconv.Quote(l.CVal)
-			items = ""
+			items = ",via-alt"
 		}
 		l.Want = "custom:" + l.CVal
 		l.CArgs = items
@@ -396,6 +401,8 @@ func checkPair(t fataler, desc string, ls []leaf, flat, nested reflect.Value, pp
 				args = "Arg=[p,q] z;Flag="
 			case ",required=false":
 				args = "Required=false"
+			case ",via-alt":
+				args = "via=alt"
 			}
 			want[rec{flatName, l.Name, l.CVal, args}]++
 			want[rec{nestedName, l.Name, l.CVal, args}]++
